@@ -231,7 +231,9 @@ func (gs GenesisState) ValidateAVSUSDValues(optedAVS map[string]struct{}) (map[s
 				avsUSDValue,
 			)
 		}
-		if _, ok := optedAVS[avsUSDValue.AVSAddr]; !ok {
+		// an AVS that no operator has opted into yet still gets its (zero) USD value written
+		// at each of its epoch ends by UpdateVotingPower.
+		if _, ok := optedAVS[avsUSDValue.AVSAddr]; !ok && !(avsUSDValue.Value.Amount.IsNil() || avsUSDValue.Value.Amount.IsZero()) {
 			return errorsmod.Wrapf(
 				ErrInvalidGenesisData,
 				"the avs address should be in the opted-in map, avsUSDValue: %+v", avsUSDValue,
